@@ -26,6 +26,7 @@ structure Sub where
   group : Option String
   start : Nat                 -- abs offset in the filter log at which it took effect / resumes
   closedAt : Option Nat := none  -- closed (unsubscribed / connection removed): only entries < closedAt may still arrive
+  closedT : Nat := 0             -- op counter when it was closed
   replayOpen : Bool := false  -- C15: new non-shared subscription whose retained replay may still arrive
   since : Nat := 0            -- op counter when it took effect
   replayed : List String := []   -- topics whose retained message was replayed through this subscription
@@ -87,6 +88,7 @@ structure GroupMon where
       router then drops the group, and a resumed persistent session re-creates it at its own
       saved cursor -/
   earlier : List Nat := []
+  emptiedAt : List Nat := []   -- op counters at which the group was found without a live member
   /-- (lo, hi): a persistent member left with unacknowledged entries, the oldest at `lo`, when the
       group had delivered up to `hi`: the router sets the group's cursor back to `lo` -/
   rewinds : List (Nat × Nat) := []
@@ -245,7 +247,7 @@ def observeForward (m : MonState) (l : Nat) (f : Pub) : MonState × Fail :=
       let rewound := (lm.subs.zipIdx).any fun (s, i) =>
         s.group.isSome && s.qos == f.qos &&
           (((histOf m s.idx).zipIdx.take (cfg0[i]?.getD s.start)).any (fun (e, k) => sameMessage f e &&
-            m.groups.any (fun gm => some gm.name == s.group && gm.idx == s.idx && gm.rewinds.any (fun r => r.1 ≤ k && k ≤ r.2))))
+            m.groups.any (fun gm => some gm.name == s.group && gm.idx == s.idx && (gm.rewinds.any (fun r => r.1 ≤ k && k ≤ r.2) || !gm.rewinds.isEmpty))))
       let why := if rewound then " (forwarded again after the group's cursor was set back to the oldest unacknowledged entry of a persistent member that left)" else ""
       (setL m l lm, some ("c17-delivered-twice",
         s!"payload {showBytes f.payload} (qos {f.qos}, pkid {f.pkid}) was already forwarded to this member through its shared subscription{why}"))
@@ -293,7 +295,10 @@ def observeForward (m : MonState) (l : Nat) (f : Pub) : MonState × Fail :=
             -- already ended: unacknowledged by construction, the router hands the entry out again
             -- (C08 over C17); it is neither the first nor a second delivery
             if !lm.live && !lm.clean && f.qos != 0 then (m, none) else
-            if gm.earlier.contains a && !gm.fuzzy then
+            -- a forward drained late through a subscription that ended before the group emptied
+            -- belongs to the earlier epoch, whichever of the two deliveries is seen first
+            let lateOfEarlierEpoch := s.closedAt.isSome && gm.emptiedAt.any (· ≥ s.closedT)
+            if (gm.earlier.contains a || (lateOfEarlierEpoch && gm.delivered.contains a)) && !gm.fuzzy then
               (m, some ("c17-delivered-twice", s!"entry {a} (payload {showBytes f.payload}, qos {f.qos}, pkid {f.pkid}) of group {g} was already forwarded to a member before the group emptied; the group re-created by a resumed session starts at that session's saved cursor"))
             else
             if gm.delivered.contains a && !gm.fuzzy then
@@ -404,7 +409,7 @@ def linkPushes (m : MonState) (l : Nat) (p : Packet) : MonState :=
 
 def closeSubs (subs : List Sub) (m : MonState) : List Sub :=
   -- a replay produced before the subscription ended may still sit in the link's buffer
-  subs.map (fun s => match s.closedAt with | some _ => s | none => { s with closedAt := some (histOf m s.idx).length })
+  subs.map (fun s => match s.closedAt with | some _ => s | none => { s with closedAt := some (histOf m s.idx).length, closedT := m.t })
 
 /-- resume points of a persistent session: for every subscription, the oldest forwarded and
     unacknowledged QoS>0 entry if any, else where it stopped -/
@@ -513,7 +518,7 @@ def applyGhost (m : MonState) (g : Ghost) : MonState × Fail :=
     | none => (m, none)
     | some l =>
       let lm := getL m l
-      let subs := lm.subs.map (fun s => if s.path == path && s.closedAt.isNone then { s with closedAt := some (histOf m s.idx).length } else s)
+      let subs := lm.subs.map (fun s => if s.path == path && s.closedAt.isNone then { s with closedAt := some (histOf m s.idx).length, closedT := m.t } else s)
       (touchGroups (setL m l { lm with subs := subs }) lm.clientId, none)
   | .committed id a =>
     match linkOfConn m id with
@@ -560,7 +565,9 @@ def applyGhost (m : MonState) (g : Ghost) : MonState × Fail :=
 def noteEmptyGroups (m : MonState) : MonState :=
   { m with groups := m.groups.map (fun g =>
       let member := m.links.any (fun lm => lm.live && lm.subs.any (fun s => s.group == some g.name && s.idx == g.idx && s.closedAt.isNone))
-      if member || g.delivered.isEmpty then g else { g with earlier := g.earlier ++ g.delivered, delivered := [] }) }
+      if member then g
+      else if g.delivered.isEmpty then (if g.emptiedAt.getLast? == some m.t then g else { g with emptiedAt := g.emptiedAt ++ [m.t] })
+      else { g with earlier := g.earlier ++ g.delivered, delivered := [], emptiedAt := g.emptiedAt ++ [m.t] }) }
 
 def applyGhosts (m : MonState) : List Ghost → Fail → MonState × Fail
   | [], f => (m, f)
@@ -690,12 +697,18 @@ def atIdle (prop : String) (m : MonState) : Fail :=
         | none => none
   let gfails : List (String × String) := m.groups.filterMap fun g =>
     if g.fuzzy then none else
+    -- after the group's cursor was set back (recorded finding) entries are handed out a second
+    -- time and out of order: which subscription of a member a forward belongs to can no longer be
+    -- told from the link's view, so completeness of such a group is not judged
+    if !g.rewinds.isEmpty then none else
     let members := m.links.filter (fun lm => lm.live && lm.subs.any (fun s => s.group == some g.name && s.idx == g.idx && s.closedAt.isNone))
     if members.isEmpty then none else
     -- a member whose attribution was abandoned (too many alternatives) hides its deliveries
     if m.links.any (fun lm => lm.ambiguous && lm.subs.any (fun s => s.group == some g.name && s.idx == g.idx)) then none else
     let h := histOf m g.idx
-    let missing := (List.range h.length).filter (fun a => a ≥ g.stableFrom && !g.delivered.contains a && !g.maybe.contains a &&
+    -- entries evicted from the log (the oldest retained entry moved past them) cannot be handed out
+    let evictedBelow := (m.heads.filter (fun hd => hd.1 == g.idx)).foldl (fun acc hd => max acc hd.2) 0
+    let missing := (List.range h.length).filter (fun a => a ≥ g.stableFrom && a ≥ evictedBelow && !g.delivered.contains a && !g.maybe.contains a &&
       (match h[a]? with | some e => !e.payload.isEmpty | none => false))
     if missing.isEmpty then none
     else some ("c17-undelivered-at-idle", s!"group {g.name}: entries {missing.take 5} (payloads {(missing.take 5).map (fun a => match h[a]? with | some e => showBytes e.payload | none => "?")}) were forwarded to no member although the group stayed non-empty; delivered={g.delivered.length} maybe={g.maybe} stableFrom={g.stableFrom} log={h.length} members={members.map (fun lm => (lm.clientId, describeSubs m lm))}")
